@@ -102,14 +102,16 @@ func (s *socket) RecvMsg() (*protocol.Message, error) {
 	// socket.  Later we can look at moving this to priority queues
 	// based on socket pipes.
 	tq := nilQ
+	s.Lock()
+	if s.recvExpire > 0 {
+		tq = time.After(s.recvExpire)
+	}
+	s.Unlock()
 	for {
 		s.Lock()
 		rq := s.recvQ
 		cq := s.closeQ
 		zq := s.sizeQ
-		if tq == nil && s.recvExpire > 0 {
-			tq = time.After(s.recvExpire)
-		}
 		s.Unlock()
 
 		select {
